@@ -1178,12 +1178,36 @@ fn main() {
         }
     }
 
+    // shrink the first congress disagreement (re-running implementation and model on every candidate)
+    if args.replay.is_none() {
+        if let Some(i) = rep.disagreements.iter().position(|d| d.component == "sampling/congress") {
+            let line = rep.disagreements[i].case.split(" ## ").next().unwrap_or("").to_string();
+            if let Some(Case::Cg(target, ops)) = Case::decode(&line) {
+                let differs = |o: &[CgOp]| -> Option<(String, String, String)> {
+                    let r = run_cg(target, o).ok()?;
+                    let reply = run_driver(&args.driver, "sampling", &[r.request.clone()])?;
+                    let m = canon_model_cg(&reply[0]);
+                    if m != r.answer { Some((r.request, r.answer, m)) } else { None }
+                };
+                let small = shrink_list(&ops, |o| differs(o).is_some());
+                if let Some((req, a, m)) = differs(&small) {
+                    let d = &mut rep.disagreements[i];
+                    d.case = format!("{} ## model-request: {}", enc_cg(target, &small), req);
+                    d.impl_out = a;
+                    d.model_out = m;
+                    rep.disagreements.swap(0, i);
+                }
+            }
+        }
+    }
+
     // disagreement without an oracle failure: targeted oracle-only search around the disagreeing cases
     if !rep.disagreements.is_empty() && rep.oracle_failures.is_empty() && args.replay.is_none() {
         let seeds: Vec<String> = rep.disagreements.iter().take(4).map(|d| d.case.split(" ## ").next().unwrap_or("").to_string()).collect();
         let mut srep = Report::new(&args, "sampling", "");
         let mut srng = rng.fork(0x5ea7c4);
-        let per = if seeds.iter().any(|s| s.starts_with("cg")) { 4_000 } else { 400_000 } / seeds.len().max(1);
+        // (a congress history costs ~10^4 times more than a rate: far fewer neighbours)
+        let per = if seeds.iter().any(|s| s.starts_with("cg")) { 300 } else { 400_000 } / seeds.len().max(1);
         for s in &seeds {
             for c in neighbours(s, &mut srng, per) {
                 run_case(&c, &mut srep, &mut srng, true);
